@@ -80,8 +80,12 @@ func main() {
 	childPost := flag.Bool("childpost", false, "internal: exit after the step")
 	childWl := flag.Int("childwl", 0, "internal: workload number")
 	childOpen := flag.Bool("childopen", false, "internal: count (and crash at) the storage steps of Open itself")
+	childBig := flag.Bool("childbig", false, "internal: die inside one large uncommitted transaction")
 	flag.StringVar(&outDir, "out", "/verif/replays", "replay directory")
 	flag.Parse()
+	if *child != "" && *childBig {
+		crashChildBig(*child)
+	}
 	if *child != "" {
 		crashChild(*child, *childSeed, *childWl, *childExit, *childPost, *childOpen)
 		return
